@@ -2,7 +2,7 @@
    Model/Graph.v IS the text-level semantics (a state is the list of the lines of the Gfa; an operation edits that list),
    tied to the implementation by the correspondence run on generated histories.  Proved here: what rm deletes. *)
 From Coq Require Import List String Ascii ZArith Bool.
-From GfaV Require Import Base.Py Gen.Tables Model.Codec Model.Graph Proofs.GraphP Proofs.RenameP Proofs.FrameP Proofs.MergeFrameP.
+From GfaV Require Import Base.Py Gen.Tables Model.Codec Model.Graph Proofs.GraphP Proofs.RenameP Proofs.FrameP Proofs.MergeFrameP Proofs.RealsP Proofs.OrdersBackrefsP Proofs.ReparseP.
 Import ListNotations.
 Open Scope string_scope.
 
@@ -81,6 +81,25 @@ Theorem C05_addition_keeps_every_record : forall s l s',
   (forall x, In x (lines s) -> g_virtual x = false -> In x (lines s')) /\ ids_ok s'.
 Proof. exact connect_keeps. Qed.
 Print Assumptions C05_addition_keeps_every_record.
+
+(* the content of the Gfa equals that of a Gfa read afresh from its records: reading the records of a state without
+   placeholders into an empty Gfa gives the same records, and therefore the same back-references for every identifier
+   and collection *)
+Theorem C05_reread_gives_the_same_records : forall s s',
+  no_placeholder s ->
+  guards_all (init_gfa (g_version s) (g_vlevel s)) (lines s) ->
+  connect_all (init_gfa (g_version s) (g_vlevel s)) (lines s) = Ok s' ->
+  map body (reals s') = map body (reals s).
+Proof. exact reread_same_records. Qed.
+Print Assumptions C05_reread_gives_the_same_records.
+
+Theorem C05_reread_gives_the_same_back_references : forall s s',
+  no_placeholder s -> no_placeholder s' ->
+  guards_all (init_gfa (g_version s) (g_vlevel s)) (lines s) ->
+  connect_all (init_gfa (g_version s) (g_vlevel s)) (lines s) = Ok s' ->
+  forall n c, Permutation.Permutation (map body (backrefs s n c)) (map body (backrefs s' n c)).
+Proof. exact reread_same_backrefs. Qed.
+Print Assumptions C05_reread_gives_the_same_back_references.
 
 Example C05_witness :
   let t := String tab EmptyString in
